@@ -221,6 +221,146 @@ pub fn zoo(thorough: bool) -> Vec<Model> {
     v
 }
 
+// ------------------------------------------------------------------------------------------------ shipped records, class-stratified
+fn load_records(rel: &str) -> Vec<serde_json::Value> {
+    std::fs::read_to_string(ppath(rel)).ok().and_then(|t| serde_json::from_str(&t).ok()).unwrap_or_default()
+}
+
+fn rec_name(r: &serde_json::Value) -> String {
+    let id = &r["identifier"];
+    id["name"].as_str().or(id["iupac_name"].as_str()).or(id["cas"].as_str()).unwrap_or("?").to_owned()
+}
+
+/// structural class of a PC-SAFT record: chain length class x dipole x quadrupole x association
+pub fn pcsaft_class(r: &serde_json::Value) -> String {
+    let mr = &r["model_record"];
+    let g = |k: &str| mr.get(k).and_then(|v| v.as_f64()).unwrap_or(0.0);
+    let m = g("m");
+    format!("m{}{}{}{}{}", if m <= 1.0001 { "<=1" } else if m <= 2.0 { "<=2" } else { ">2" },
+        if g("mu") != 0.0 { "/dipole" } else { "" }, if g("q") != 0.0 { "/quadrupole" } else { "" },
+        if mr.get("kappa_ab").is_some() { "/assoc" } else { "" },
+        if mr.get("kappa_ab").is_none() && (mr.get("na").is_some() || mr.get("nb").is_some()) { "/sites-only" } else { "" })
+}
+
+/// a Model whose temperature scale is its critical temperature (equimolar for mixtures); `fallback` if that cannot be computed
+fn mk(name: &str, family: &'static str, fallback: f64, r: ResidualModel) -> Model {
+    use feos_core::ReferenceSystem;
+    let mut model = m(name, family, fallback, r);
+    let n = model.n;
+    let x = quantity::Moles::from_reduced(ndarray::Array1::from_elem(n, 1.0 / n as f64));
+    let eos = model.eos.clone();
+    let tc = std::panic::catch_unwind(std::panic::AssertUnwindSafe(|| {
+        feos_core::State::critical_point(&eos, if n == 1 { None } else { Some(&x) }, None, Default::default()).ok().map(|s| s.temperature.to_reduced())
+    })).ok().flatten();
+    if let Some(t) = tc.filter(|t| t.is_finite() && *t > 1.0) { model.tscale = t; }
+    model
+}
+
+/// Models built from shipped records, stratified by structural class: `per_class` records of every class of every file, pure and as
+/// binary mixtures with a record of another class. The thorough tier takes more records per class.
+pub fn shipped_sample(rng: &mut crate::util::Rng, thorough: bool) -> Vec<Model> {
+    use crate::util::guarded;
+    let mut out: Vec<Model> = vec![];
+    let per_class = if thorough { 6 } else { 1 };
+    // ---- PC-SAFT
+    let mut pool: Vec<(String, serde_json::Value, String)> = vec![];
+    for file in ["pcsaft/gross2001.json", "pcsaft/gross2002.json", "pcsaft/gross2005_fit.json", "pcsaft/gross2006.json", "pcsaft/loetgeringlin2018.json",
+                 "pcsaft/rehner2020.json", "pcsaft/esper2023.json"] {
+        let recs = load_records(file);
+        let mut order: Vec<usize> = (0..recs.len()).collect();
+        rng.shuffle(&mut order);
+        let mut seen: std::collections::HashMap<String, usize> = Default::default();
+        for i in order {
+            let c = pcsaft_class(&recs[i]);
+            let k = seen.entry(c.clone()).or_insert(0);
+            if *k >= per_class { continue; }
+            *k += 1;
+            let tag = format!("shipped:{}[{}]:{}:{}", file, i, rec_name(&recs[i]), c);
+            pool.push((tag, recs[i].clone(), c));
+        }
+    }
+    for (tag, rec, _) in &pool {
+        let js = serde_json::to_string(&vec![rec.clone()]).unwrap();
+        if let Ok(r) = guarded(std::panic::AssertUnwindSafe(|| ResidualModel::PcSaft(pcsaft(&js, &[])))) {
+            let eps = rec["model_record"]["epsilon_k"].as_f64().unwrap_or(200.0);
+            out.push(mk(tag, "PcSaft", 1.8 * eps, r));
+        }
+    }
+    // binary mixtures of records of different classes (both DQ variants occur through the options of the C09 specs; default options here)
+    let nmix = if thorough { 60 } else { 10 };
+    for k in 0..nmix {
+        let a = &pool[rng.below(pool.len())];
+        let b = &pool[rng.below(pool.len())];
+        if a.0 == b.0 { continue; }
+        let mut ra = a.1.clone(); let mut rb = b.1.clone();
+        ra["identifier"] = serde_json::json!({"name": "first"}); rb["identifier"] = serde_json::json!({"name": "second"});
+        let js = serde_json::to_string(&vec![ra, rb]).unwrap();
+        let kij = format!("{{\"k_ij\":{}}}", rng.range(-0.03, 0.05));
+        if let Ok(r) = guarded(std::panic::AssertUnwindSafe(|| ResidualModel::PcSaft(pcsaft(&js, &[((0, 1), kij.as_str())])))) {
+            out.push(mk(&format!("shipped-mix{}:{}+{}", k, a.0.trim_start_matches("shipped:"), b.0.trim_start_matches("shipped:")), "PcSaft", 500.0, r));
+        }
+    }
+    // ---- SAFT-VR Mie (lafitte2013: alkanes, alcohols, ...)
+    {
+        let recs = load_records("saftvrmie/lafitte2013.json");
+        let mut order: Vec<usize> = (0..recs.len()).collect();
+        rng.shuffle(&mut order);
+        for &i in order.iter().take(if thorough { recs.len() } else { 4 }) {
+            let js = serde_json::to_string(&vec![recs[i].clone()]).unwrap();
+            if let Ok(r) = guarded(std::panic::AssertUnwindSafe(|| ResidualModel::SaftVRMie(SaftVRMie::new(Arc::new(from_json_str::<SaftVRMieParameters>(&js, &[])))))) {
+                let eps = recs[i]["model_record"]["epsilon_k"].as_f64().unwrap_or(250.0);
+                out.push(mk(&format!("shipped:saftvrmie/lafitte2013.json[{}]:{}", i, rec_name(&recs[i])), "SaftVRMie", 1.5 * eps, r));
+            }
+        }
+        for k in 0..(if thorough { 12 } else { 2 }) {
+            let (i, j) = (order[rng.below(order.len())], order[rng.below(order.len())]);
+            if i == j { continue; }
+            let js = serde_json::to_string(&vec![recs[i].clone(), recs[j].clone()]).unwrap();
+            let kij = format!("{{\"k_ij\":{}}}", rng.range(-0.02, 0.04));
+            if let Ok(r) = guarded(std::panic::AssertUnwindSafe(|| ResidualModel::SaftVRMie(SaftVRMie::new(Arc::new(from_json_str::<SaftVRMieParameters>(&js, &[((0, 1), kij.as_str())])))))) {
+                out.push(mk(&format!("shipped-mix{}:saftvrmie/lafitte2013.json[{}+{}]:{}+{}", k, i, j, rec_name(&recs[i]), rec_name(&recs[j])), "SaftVRMie", 450.0, r));
+            }
+        }
+    }
+    // ---- SAFT-VRQ Mie (Feynman-Hibbs order 1 and 2, additive hard sphere reference on/off)
+    for file in ["saftvrqmie/aasen2019.json", "saftvrqmie/aasen2019_fh2.json", "saftvrqmie/hammer2023.json"] {
+        let recs = load_records(file);
+        let take = if thorough { recs.len() } else { 1 };
+        let mut order: Vec<usize> = (0..recs.len()).collect();
+        rng.shuffle(&mut order);
+        for &i in order.iter().take(take) {
+            let js = serde_json::to_string(&vec![recs[i].clone()]).unwrap();
+            if let Ok(r) = guarded(std::panic::AssertUnwindSafe(|| ResidualModel::SaftVRQMie(SaftVRQMie::new(Arc::new(from_json_str::<SaftVRQMieParameters>(&js, &[])))))) {
+                let eps = recs[i]["model_record"]["epsilon_k"].as_f64().unwrap_or(30.0);
+                out.push(mk(&format!("shipped:{}[{}]:{}", file, i, rec_name(&recs[i])), "SaftVRQMie", 1.3 * eps, r));
+            }
+        }
+    }
+    // ---- gc-PC-SAFT: substances assembled from the shipped segment tables
+    {
+        let subs = load_records("pcsaft/gc_substances.json");
+        let mut order: Vec<usize> = (0..subs.len()).collect();
+        rng.shuffle(&mut order);
+        let mut taken = 0;
+        for &i in &order {
+            if taken >= (if thorough { 24 } else { 3 }) { break; }
+            let name = rec_name(&subs[i]);
+            let r = guarded(std::panic::AssertUnwindSafe(|| GcPcSaftEosParameters::from_json_segments(&[name.as_str()], ppath("pcsaft/gc_substances.json"), ppath("pcsaft/sauer2014_hetero.json"), None, IdentifierOption::Name)));
+            if let Ok(Ok(p)) = r {
+                let rm = ResidualModel::GcPcSaft(GcPcSaft::new(Arc::new(p)));
+                out.push(mk(&format!("shipped:gc_substances[{}]:{}(hetero)", i, name), "GcPcSaft", 500.0, rm));
+                taken += 1;
+            }
+            let r = guarded(std::panic::AssertUnwindSafe(|| PcSaftParameters::from_json_segments(&[name.as_str()], ppath("pcsaft/gc_substances.json"), ppath("pcsaft/sauer2014_homo.json"), None, IdentifierOption::Name)));
+            if let Ok(Ok(p)) = r {
+                let rm = ResidualModel::PcSaft(PcSaft::new(Arc::new(p)));
+                out.push(mk(&format!("shipped:gc_substances[{}]:{}(homo)", i, name), "PcSaft", 500.0, rm));
+            }
+        }
+    }
+    out
+}
+
 pub fn joback_for(n: usize) -> IdealGasModel {
     // simple, distinct Joback polynomials per component
     let recs: Vec<serde_json::Value> = (0..n)
